@@ -49,16 +49,19 @@ static void partial(int n)
 	printf("partial sizes: %lu %lu %lu %lu %lu\n", (unsigned long)sizeof x, (unsigned long)sizeof y, (unsigned long)sizeof z, (unsigned long)sizeof u, (unsigned long)sizeof s);
 }
 
-static struct a16 mk16(int n) { struct a16 r = {n, n + 1, n + 2}; return r; }
-static struct a64 mk64(int n) { struct a64 r = {n, {1, 2, 3, 4, 5, 6, 7, 8, (char)n}}; return r; }
+/* filled through a pointer: passing or returning these types by value runs into the type-descriptor defect recorded under C08 */
+static void mk16(struct a16 *p, int n) { struct a16 r = {n, n + 1, n + 2}; *p = r; }
+static void mk64(struct a64 *p, int n) { struct a64 r = {n, {1, 2, 3, 4, 5, 6, 7, 8, (char)n}}; *p = r; }
 
 static void copies(int n)
 {
-	struct a16 a = mk16(n), b, c[2];
-	struct a64 p = mk64(n), q;
+	struct a16 a, b, c[2];
+	struct a64 p, q;
 	struct a32 y = {n, {3, 4, 5}, 6}, y2;
 	union u16 u = {{9, 8, 7, 6, 5, 4, 3, 2, 1, 0, 1, 2, 3, 4, 5, 6, 7, 8, 9, (char)n}}, v;
 
+	mk16(&a, n);
+	mk64(&p, n);
 	memset(&b, 0xee, sizeof b);
 	memset(c, 0xee, sizeof c);
 	memset(&q, 0xee, sizeof q);
